@@ -165,20 +165,34 @@ RUNS = {
     "handled": ('diag_log "h1"; {\n1 + "a"\n} except__ { diag_log "h2" }; diag_log "h3"', "ok"),
     "two-clean-scripts": ('[] spawn { diag_log "w1"; diag_log "w2" }; diag_log "w3"', "ok"),
 }
+# runs that the runtime limit cuts short (judged by C11; here only what they leave behind for the NEXT run matters)
+LIMIT_RUNS = {
+    "limit-loop": ('diag_log "x1"; while {true} do { q = 1 }', "limit"),
+    "limit-empty-loop": ('waitUntil { false }', "limit"),
+    "limit-spawned-loop": ('[] spawn { while {true} do { q = 1 } }; diag_log "y1"', "limit"),
+    "limit-all-asleep": ('[] spawn { sleep 100 }; diag_log "a1"', "limit"),
+    "limit-after-handled": ('{\n1 + "a"\n} except__ { diag_log "k1" }; while {true} do { q = 2 }', "limit"),
+}
+HIST_LIMIT_KINDS = ["clean", "err-mid", "spawned-err", "handled"] + list(LIMIT_RUNS)
+RUNS.update(LIMIT_RUNS)
+LIMIT_CODE = 60002
 UNREACHED = {"e2", "s3"}
 ALL_MARKS = {"clean": ["c1", "c2"], "handled": ["h1", "h2", "h3"], "two-clean-scripts": ["w1", "w2", "w3"]}
 
 
-def gen_hist(maxlen):
+def gen_hist(maxlen, kinds=None, need=None):
     def g():
         for n in range(1, maxlen + 1):
-            for seq in itertools.product(list(RUNS), repeat=n):
+            for seq in itertools.product(kinds or [k for k in RUNS if k not in LIMIT_RUNS], repeat=n):
+                if need and not (set(seq) & set(need)):
+                    continue
                 yield list(seq)
     return g
 
 
 def check_hist(ws, seq):
-    steps = [{"op": "vm", "id": 0, "template": True, "max_runtime_ms": 300}]
+    limited = bool(set(seq) & set(LIMIT_RUNS))
+    steps = [{"op": "vm", "id": 0, "template": True, "max_runtime_ms": 20 if limited else 300}]
     for k in seq:
         steps.append({"op": "sqf", "id": 0, "text": RUNS[k][0], "path": k + ".sqf"})
         steps.append({"op": "exec", "id": 0, "action": "start"})
@@ -200,7 +214,11 @@ def check_hist(ws, seq):
         errs = [m for m in logs if m["lvl"] <= 1]
         prev = seq[i - 1] if i else "start"
         tag = "after=%s|run=%s" % (prev, k)
-        if RUNS[k][1] == "ok":
+        if RUNS[k][1] == "limit":
+            if not any(m["code"] == LIMIT_CODE for m in logs):
+                viols.append(("C04|history|%s|limit-run-not-cut" % tag, "history %r: run %d (%s) was expected to be ended by the runtime limit: %r" % (
+                    seq, i, k, [m["msg"][:60] for m in logs][:3]), None, seq))
+        elif RUNS[k][1] == "ok":
             if ex["r"] not in (-1,):
                 viols.append(("C04|history|%s|clean-run-reported-failed" % tag, "history %r: run %d (%s) returned %d" % (seq, i, k, ex["r"]), None, seq))
             elif any(m["code"] == 60001 for m in errs) or (k != "handled" and errs):
@@ -230,6 +248,8 @@ def spaces(tier):
               describe="fault at top level and in every template's executed block x 8 error kinds x 6 handler placements"),
         Space("histories", gen_hist(3 if tier == "quick" else 5), check_hist, variant="fast",
               describe="all sequences of run kinds on one VM (10 kinds; length <=3 quick, <=5 thorough)"),
+        Space("histories-with-limit", gen_hist(3 if tier == "quick" else 4, HIST_LIMIT_KINDS, LIMIT_RUNS), check_hist, variant="fast",
+              describe="sequences of runs on one VM that contain at least one run ended by the runtime limit (5 such kinds + 4 ordinary kinds)"),
     ]
     if tier == "quick":
         sp.append(Space("faults-depth2-reduced", gen_faults(2, c02_interact(), ["type", "count-behaviour"], ["none", "except-inner", "try-inner"]), check,
